@@ -35,12 +35,7 @@ ASSUMPTIONS = ["values are representable in the requested dtype (integers for in
                "no NaN among the specified values (NaN is the code's sentinel for 'not yet assigned'); dictionaries are not nested; "
                "a source field uses the same dimension names as the target mesh",
                "exact-regime inputs (dyadic geometry, small dyadic values, degree <= 2): every binary64 operation on the code path is exact"]
-UNPROVED = ["asArray_dict / asArray_dict_first_listed are stated for dtypes that can hold NaN (junk = none); for int and bool the code loses "
-            "the sentinel when the default is callable or missing (finding D41, theorem dict_sentinel_lost shows it on the model)",
-            "line theorems need a mesh of dimension != 1: Field.line raises on every 1-d mesh (finding D43, theorem line_1d_rejected)",
-            "the array setter accepts a Field with another nvdim (finding D44, theorem setArray_field_wrong_nvdim_accepted); "
-            "update_field_values rejects it (updateValues_field_wrong_nvdim_rejected)",
-            "the data frame's column names are not modelled: the coordinate column clobbered by a value/distance column of the same name "
+UNPROVED = ["the data frame's column names are not modelled: the coordinate column clobbered by a value/distance column of the same name "
             "(finding D42) is seen by the oracle only",
             "mesh order = first-index-fastest enumeration is C01's indices_refines; C02 proves that iteration follows Mesh.indices"]
 BUDGET = {"quick": 80, "thorough": 900}
@@ -745,7 +740,7 @@ def gen_tol(rng, tier):
 
 def cases(rng, tier):
     quick = tier == "quick"
-    # D41 witnesses (int / bool dictionaries whose default is callable or missing): a fixed small share
+    # regression for the fixed finding D41 (int / bool dictionaries whose default is callable or missing)
     for kind in ("int", "bool"):
         for mode in ("poly", "none"):
             ms = dict(p1=[0.0, 0.0], p2=[4.0, 2.0], n=[4, 2], dims=None, bc="")
@@ -1104,27 +1099,11 @@ def describe(spec):
 
 
 # --------------------------------------------------------------------------- model side
-def junk_of(kind):
-    """what np.full(..., np.nan, dtype) stores when the dtype cannot hold NaN (None: it can)"""
-    if kind in ("int", "bool"):
-        with np.errstate(all="ignore"):
-            return num_j(val_c(np.full((1,), np.nan, dtype=np_dtype(kind))[0]))
-    return None
-
-
-def with_junk(req, kind):
-    j = junk_of(kind)
-    if j is not None:
-        req["junk"] = j
-    return req
-
-
 def model_requests(case, obs):
     if obs.get("skip") or "mesh_json" not in obs:
         return []
     mj, nv = obs["mesh_json"], case["nvdim"]
-    reqs = _model_requests(case, obs, mj, nv)
-    return [with_junk(r, case["dtype"]) if r["op"] in ("construct", "update") else r for r in reqs]
+    return _model_requests(case, obs, mj, nv)
 
 
 def _model_requests(case, obs, mj, nv):
@@ -1247,7 +1226,11 @@ def compare(case, obs, rs):
                         break
             for j, (a, b) in enumerate(zip(l["r"], mo["r2"])):
                 rr = F(a)
-                if abs(rr * rr - F(b)) > Fraction(2) ** -40 * max(F(b), Fraction(1, 10**300)):
+                # the points carry an absolute rounding error ~ u * |coordinates| (cancellation when p1 and p2 are close):
+                # r must lie within tol of sqrt(model r^2); exact regime: tol is only sqrt's own rounding
+                tol = Fraction(2) ** -40 * rr + (0 if exact else Fraction(2) ** -44 * span)
+                lo_, hi_ = max(rr - tol, 0), rr + tol
+                if not (lo_ * lo_ <= F(b) <= hi_ * hi_):
                     dis.append(f"{name} r[{j}]: impl {float(rr)} squared vs model r^2 {b}")
                     break
     if case["kind"] == "init" and len(rs) > 2:
@@ -1261,29 +1244,9 @@ def nontrivial(case, obs):
     return bool(obs.get("nontrivial"))
 
 
-def _sentinel_class(spec, kind):
-    return (kind in ("int", "bool") and isinstance(spec, dict) and spec.get("k") == "dict"
-            and (spec["default"] is None or spec["default"]["k"] in ("poly", "field")))
-
-
 def known(case, text):
-    """D41: dictionary value, dtype int or bool, default callable or missing: the NaN sentinel does not survive the cast,
-    so cells covered by no listed subregion keep the cast sentinel and a missing default is not reported"""
+    """D42 (open): a mesh dimension named like the distance column 'r' or like a value column ('v' for scalar fields,
+    'v<label>' otherwise): Line.__init__ overwrites that coordinate column in the data frame"""
     if text.startswith("line data frame: coordinate column"):
         return "D42"
-    if len(case["mesh"]["n"]) == 1 and text.startswith("line ") and "raised" in text:
-        return "D43"
-    if "accepted by setter: field(nvdim=" in text:
-        # only the class of the finding: a source field whose component count differs from the field's
-        for key in ("bad", "spec"):
-            l = case.get(key)
-            if isinstance(l, dict) and l.get("k") == "field" and l.get("src", {}).get("nvdim") not in (None, case["nvdim"]) \
-                    and f"field(nvdim={l['src']['nvdim']}," in text:
-                return "D44"
-    kind = case.get("dtype")
-    about_cells = (text.startswith("cell ") or text.startswith("the specification assigns")
-                   or text.startswith("specification of the wrong shape") or text.startswith("Field(value=")
-                   or text.startswith("update_field_values(") or text.startswith("Field.array"))
-    if about_cells and any(_sentinel_class(case.get(key), kind) for key in ("spec", "spec2")):
-        return "D41"
     return None
